@@ -20,9 +20,10 @@ P = {
  "C01": ("proof", "4.C01", "Coq proof over executable model + differential correspondence (extracted OCaml vs Go)",
          "Spec.index is proved to be exactly the leftmost boundary-delimited match w.r.t. EqualFold (= strings.EqualFold by C02) for ALL byte strings; "
          "Index/Contains of both packages are compared with the extracted Spec and, on short inputs, with the property's own predicate evaluated with strings.EqualFold. "
-         "The structure-faithful model Impl6.Index (dispatch, brute force, Rabin-Karp, main loop) runs against the code and its unexported strategies under 4 configurations; proved to refine Spec so far: "
-         "the callees hasPrefixUnicode (incl. the exhausted flag and the length-ratio pre-check), IndexByte, IndexRune/indexRune/indexRuneCase (every rune, every cut-over) and indexRabinKarpUnicode (every prime); "
-         "the brute-force and main loops are tied by correspondence only."),
+         "The structure-faithful model Impl6.Index (dispatch on the needle, length pre-checks, IndexByte/IndexRune for one code point, native search for caseless ASCII needles, "
+         "bruteForceIndexUnicode with its three arms, the main loop with candidate jumps, fail counter and Rabin-Karp hand-over, indexRabinKarpUnicode) is PROVED to compute Spec.index on every pair of byte strings "
+         "(C01_index_refines: both package shapes, both NativeIndex values, every cut-over function, every value of maxBruteForce/maxLen/primeRK; never Panic, never OutOfFuel), and it runs against the code and its "
+         "unexported strategies under 4 configurations on every check. The candidate tests (ToUpperLower with the U+0130/U+0131 special case, FoldMapExcludingUpperLower) are proved to be exactly the folding orbit on the regenerated tables."),
  "C02": ("proof", "4.C02", "Coq refinement proof (Impl.Compare/EqualFold = StdSpec.equal_fold) + correspondence + direct comparison with strings/bytes.EqualFold",
          "Impl.EqualFold (structure-faithful model of both package shapes) is proved equal to the model of strings.EqualFold (toolchain SimpleFold orbits) on all byte strings; "
          "the model of strings.EqualFold and the code are compared with the real functions on every case."),
@@ -37,16 +38,16 @@ P = {
          "mallocs per call over 108 shapes (0 B .. 70 KB quick / 300 KB thorough, long needles, ill-formed, each fallback strategy) x 46 functions x 3 CPU-feature configurations."),
  "C06": ("proof", "4.C06", "Coq proof (Ok-totality of Impl where modelled, range theorems for Spec) + panic/hang/range observation on ill-formed corpus",
          "Totality (Impl returns Ok: no Panic from a bounds check, no OutOfFuel) follows from the refinement theorems for Compare, EqualFold, HasPrefix, TrimPrefix, CutPrefix, HasSuffix, TrimSuffix, CutSuffix, "
-         "IndexByte, IndexByteASCII, IndexRune, ContainsRune, the Rabin-Karp search, and (given Index) Count and Cut; for the others the theorem is the range of the Spec value and the absence of panics/hangs is observed "
+         "IndexByte, IndexByteASCII, IndexRune, ContainsRune, Index, Contains (incl. brute force, main loop and Rabin-Karp), Count (general loop) and Cut; for the others (LastIndex, LastIndexByte, the Any family, IndexNonASCII) the theorem is the range of the Spec value and the absence of panics/hangs is observed "
          "(recover, watchdog) on a dense ill-formed corpus incl. exhaustive small alphabets. Reads outside the arguments: every exported function is called with its arguments flush against PROT_NONE pages on both sides."),
  "C07": ("proof", "4.C07", "Coq proof (package-shape parity of Impl where modelled, exported sets equal, _lower tables equal) + direct parity comparison of both packages",
          "Both packages are compared with each other and with the same extracted Spec on every generated case of all 23 functions; parity of the two source shapes follows where both shapes are proved to refine the same Spec "
-         "(Compare, EqualFold, prefix family, suffix family, Rabin-Karp, Count general loop, Cut, single-character searches)."),
+         "(Compare, EqualFold, prefix family, suffix family, Index, Contains, Count general loop, Cut, single-character searches)."),
  "C08": ("proof", "4.C08", "Coq proof over executable model + differential correspondence", "As C01 for LastIndex (rightmost), plus Index<=LastIndex and same-match-set theorems. Impl7.LastIndex (reverse Rabin-Karp) is modelled and run against the code; utf8.DecodeLastRune is proved to yield the last forward segment (Utf8Last); the refinement of LastIndex itself is not proved."),
  "C09": ("proof", "4.C09", "Coq proof over executable model + differential correspondence", "Prefix/suffix tests and the exact cut points of Trim*/Cut* proved for Spec on all byte strings, and all six functions' structure-faithful models (both package shapes) are proved to compute exactly those Spec functions on all byte strings (Refine_Prefix, Refine_Suffix); returned sub-slices are compared by position."),
  "C10": ("proof", "4.C10", "Coq proof over executable model + differential correspondence (every code point as needle)", "First-member-of-orbit characterisation of index_rune and the byte-pattern characterisation of IndexByte proved; IndexRune, ContainsRune, IndexByte, IndexByteASCII and the unexported indexRuneCase/indexRune/indexRune2/indexByte models are proved to refine them for every rune/byte argument, every cut-over function and both NativeIndex values (self-synchronisation of UTF-8 proved for arbitrary bytes; FoldMap/ToUpperLower candidate sets proved equal to the folding orbit on the regenerated tables). LastIndexByte is modelled and run against the code, not proved. Every orbit-bearing code point and a stride of the others run as needle and haystack member."),
  "C11": ("proof", "4.C11", "Coq proof over executable model + differential correspondence (threshold grid)", "First/last code point fold-equal to some code point of chars proved for Spec; makeASCIISet and the three strategies of IndexAny/LastIndexAny are modelled (Impl7) and run against the code; their refinement is not proved. The strategies are crossed by a (len s, len chars) grid."),
- "C12": ("proof", "4.C12", "Coq proof over executable model + differential correspondence", "Greedy unfolding of Count and the exact split of Cut proved for Spec; Count's general loop and Cut (both package shapes) proved to compute them given Index's specification (resuming after the matched text of the haystack, whose width differs from the needle's); Count's single-ASCII-byte kernel path is tied by correspondence."),
+ "C12": ("proof", "4.C12", "Coq proof over executable model + differential correspondence", "Greedy unfolding of Count and the exact split of Cut proved for Spec; Count's general loop and Cut (both package shapes) proved to compute them around the proved model of Index itself (resuming after the matched text of the haystack, whose width differs from the needle's); Count's single-ASCII-byte kernel path is tied by correspondence."),
  "C13": ("other", "4.C13", "Coq proof for every pure-Go kernel body (unbounded length) + guard-page sweep of the amd64 assembly against the same scalar definition",
          "PARTIAL: the pure-Go kernel bodies (portable, no-POPCNT fallback, standard-library based) are proved equal to the scalar definition for every length and content; "
          "the amd64 assembly is NOT proved: it is swept (lengths 0..200 + page-crossing lengths quick / 0..4352 thorough, all alignments, flush against PROT_NONE pages both sides, "
